@@ -10,7 +10,9 @@ CHECK = {
                   "abundances) chosen to reach every branch, shortcut and threshold of the anchored code, and decides the "
                   "bounds, sum, clamp, no-abort, balance and monotonicity oracles on every cell. Exhaustive over the "
                   "alphabet, silent outside it.",
-    "level_note": "exhaustive:true refers to the stated alphabet. Spectra are mixtures of at most two photon energies; "
+    "level_note": "exhaustive:true refers to the stated alphabet. Spectra are mixtures of at most two photon energies from "
+                  "{13.6+ .. 100 eV soft, 10..100 x 13.6 eV hard}; the quick thermal part uses a stated sub-alphabet "
+                  "(every other flux decade incl. 1e20, 106 of the 244 spectra, see NOTES.md); "
                   "TemperatureCalculator runs with its default parameters (plus PAH / cosmic-ray heating 1 in the thorough "
                   "tier). The balance-equation and monotonicity oracles apply to hydrogen-only gas through "
                   "calculate_ionization_state (closed form), as the property states.",
